@@ -264,9 +264,15 @@ class SchedulingSolver(BaseModelWithJson):
                     )
                     total_work_for_all_resources.append(work_contribution)
                 if total_work_for_all_resources:
-                    self.append_z3_assertion(
+                    work_amount_assertion = (
                         z3.Sum(total_work_for_all_resources) >= task.work_amount
                     )
+                    if task.optional:
+                        # no work to provide if the task is not scheduled
+                        work_amount_assertion = z3.Implies(
+                            task._scheduled, work_amount_assertion
+                        )
+                    self.append_z3_assertion(work_amount_assertion)
 
         # process buffers
         for buffer in self.problem.buffers:
